@@ -1,7 +1,8 @@
 (** non-vacuity for C06: concrete token sequences and trees meeting the hypotheses of the main
     theorems (all by [vm_compute]) *)
 From Coq Require Import List NArith ZArith String.
-From ApiFu Require Import Base.Sexp Syn.Ast Syn.ParserModel Syn.Printer Syn.ParserProofs.
+From ApiFu Require Import Base.Sexp Syn.Ast Syn.ParserModel Syn.Printer Syn.ParserProofs Syn.Relabel
+     Syn.FrontEnd Syn.FrontEndSpec Syn.FrontEndProofs.
 Import ListNotations.
 Local Open Scope N_scope.
 
@@ -85,3 +86,51 @@ Example value_parses :
   layout_of (tokens_value val_tree) (map st_tok val_toks) = true /\ wf_value false val_tree = true /\
   depth_value val_tree = 5%Z.
 Proof. vm_compute. repeat split. Qed.
+
+(** ** from BYTES (Syn/FrontEnd.v) *)
+
+(** a text with a BOM, a comment, commas, CR LF and a block string, in two layouts *)
+Definition text1 : bytes :=
+  ([239; 187; 191] ++ bs "query Q($a: [Int!] = [1, 2]) @d {  # c" ++ [13; 10] ++
+   bs "  x: f(k: {o: $a}, s: """"""hi"""""") ... on T { g }" ++ [10] ++ bs "}")%list.
+Definition text2 : bytes :=
+  (bs "query,Q ( $a : [ Int ! ] = [ 1 2 ] ) @d" ++ [13] ++ bs "{ x : f ( k : { o : $a } s : ""hi"" ) ... on T { g } }")%list.
+
+Example text1_accepted : exists d, parse_document_bytes text1 = Out (Some d) [] /\ in_grammar_bytes text1 d.
+Proof.
+  destruct (parse_document_bytes text1) as [[d|] [|e es]|] eqn:E; try (vm_compute in E; discriminate).
+  exists d. split; [reflexivity|]. apply parse_bytes_accepts_exactly. exact E.
+Qed.
+
+(** the hypotheses of the layout theorem are met by the two texts *)
+Example two_layouts : exists r1 r2 d1 d2,
+  front_end text1 = Some r1 /\ front_end text2 = Some r2 /\
+  Forall2 same_shape (f_toks r1) (f_toks r2) /\ scanner_errors (f_eof_errs r2) (f_toks r2) = [] /\
+  parse_document_bytes text1 = Out (Some d1) [] /\ parse_document_bytes text2 = Out (Some d2) [] /\
+  erase_document d2 = erase_document d1 /\ d1 <> d2.
+Proof.
+  do 4 eexists. split; [vm_compute; reflexivity|]. split; [vm_compute; reflexivity|].
+  split; [repeat (constructor; [split; reflexivity|]); constructor|].
+  split; [vm_compute; reflexivity|]. split; [vm_compute; reflexivity|]. split; [vm_compute; reflexivity|].
+  split; [vm_compute; reflexivity|]. vm_compute. discriminate.
+Qed.
+
+(** rejected texts: a syntax error on line 2; a lexical error (invalid UTF-8) beside a complete
+    tree; text outside the lexical grammar only *)
+Definition rej_text : bytes := (bs "{a" ++ [10] ++ bs " ) }")%list.
+Definition bad_text : bytes := (bs "{a " ++ [255] ++ bs "}")%list.
+Example rejected_inside :
+  parse_document_bytes rej_text = Out None [mkpos 2 2] /\
+  inside_text rej_text (mkpos 2 2).
+Proof. split; [vm_compute; reflexivity|]. vm_compute. repeat split; discriminate. Qed.
+
+Example tree_beside_invalid_utf8 :
+  exists d, parse_document_bytes bad_text = Out (Some d) [mkpos 1 4].
+Proof. eexists. vm_compute. reflexivity. Qed.
+
+Example value_from_bytes :
+  exists v, parse_value_bytes (bs "[1, {k: $v}]") = Out (Some v) [] /\ value_in_grammar_bytes (bs "[1, {k: $v}]") v.
+Proof.
+  destruct (parse_value_bytes (bs "[1, {k: $v}]")) as [[v|] [|e es]|] eqn:E; try (vm_compute in E; discriminate).
+  exists v. split; [reflexivity|]. apply parse_value_bytes_accepts_exactly. exact E.
+Qed.
